@@ -1,1 +1,46 @@
-From RP Require Import Base MiluEval.
+(* Property C08 — rule-language type soundness.
+   Model: MiluEval.v (checker type_of and evaluator value_of as the milu crate implements them
+   after the fix: commits, in the redproxy script environment).  This file holds the property
+   theorems that are proved; the full induction (soundness for the let-free fragment) is added
+   from MiluSound.v when present.  The two recorded holes are proved as refutations with
+   concrete witnesses, replayed on the implementation by checks/c08.py. *)
+From RP Require Import Base Target MiluSyntax MiluDoc MiluEval C08Proofs.
+From Coq Require Import ZArith String.
+
+Theorem C08_int_op_total : forall name a b, is_int_op name = true ->
+  (exists z, int_op name a b = Ok (VInt z)) \/ int_op name a b = Err E_ARITH.
+Proof. exact int_op_total. Qed.
+Print Assumptions C08_int_op_total.
+
+Theorem C08_cmp_values_typed : forall name a b v, cmp_values name a b = Ok v -> exists r, v = VBool r.
+Proof. exact cmp_values_typed. Qed.
+Print Assumptions C08_cmp_values_typed.
+
+Theorem C08_accessor_types_agree : forall a name t,
+  addr_field_type name = Ok t ->
+  match addr_field a name with
+  | Ok (VStr _) => t = TyStr
+  | Ok (VInt _) => t = TyInt
+  | _ => False
+  end.
+Proof. exact addr_accessor_types_agree. Qed.
+Print Assumptions C08_accessor_types_agree.
+
+(* KnownClass_C08, witnessed: the full statement is FALSE of the faithful model (and of the code) *)
+Theorem C08_soundness_refuted_any_wildcard :
+  type_of (fun _ _ => Some false) (fun _ _ => false) (mk_req [] [] [] (mk_addr 1 [] 0 [] []) (mk_addr 1 [] 0 [] [])) 50 [] hole_any = Ok TyBool /\
+  real_value_of (fun _ _ => Some false) (fun _ _ => false) (mk_req [] [] [] (mk_addr 1 [] 0 [] []) (mk_addr 1 [] 0 [] [])) 50 [] hole_any = Err E_TYPE.
+Proof. exact soundness_refuted_any. Qed.
+Print Assumptions C08_soundness_refuted_any_wildcard.
+
+Theorem C08_soundness_refuted_aggregate_leaves_scope :
+  type_of (fun _ _ => Some false) (fun _ _ => false) (mk_req [] [] [] (mk_addr 1 [] 0 [] []) (mk_addr 1 [] 0 [] [])) 50 [] hole_scope = Ok TyInt /\
+  real_value_of (fun _ _ => Some false) (fun _ _ => false) (mk_req [] [] [] (mk_addr 1 [] 0 [] []) (mk_addr 1 [] 0 [] [])) 50 [] hole_scope = Err E_TYPE.
+Proof. exact soundness_refuted_scope. Qed.
+Print Assumptions C08_soundness_refuted_aggregate_leaves_scope.
+
+Theorem C08_soundness_refuted_aggregate_shadowed :
+  type_of (fun _ _ => Some false) (fun _ _ => false) (mk_req [] [] [] (mk_addr 1 [] 0 [] []) (mk_addr 1 [] 0 [] [])) 50 [] hole_shadow = Ok TyInt /\
+  real_value_of (fun _ _ => Some false) (fun _ _ => false) (mk_req [] [] [] (mk_addr 1 [] 0 [] []) (mk_addr 1 [] 0 [] [])) 50 [] hole_shadow = Err E_TYPE.
+Proof. exact soundness_refuted_shadow. Qed.
+Print Assumptions C08_soundness_refuted_aggregate_shadowed.
